@@ -104,9 +104,11 @@ def check_structure(ck):
         txt = p.read_text()
         if re.search(r"cache\s*=\s*True", txt):
             others.append(str(p.relative_to(vlib.SRC)))
-            if re.search(r"np\.load\(|_geom\.npz|geometry\.(mdc|emc)\s+import\s+_", txt):
+            # any way of reaching the geometry modules' private arrays: importing the geometry package / modules, or reading the tables
+            if re.search(r"np\.load\(|_geom\b|\bgeometry\b", txt):
                 ck.tie_broken("structure", str(p.relative_to(vlib.SRC)),
-                              "a cached kernel module outside geometry/{mdc,emc}.py reads table data; src_cache_list does not cover it")
+                              "a module outside geometry/{mdc,emc}.py defines cache=True kernels and refers to the geometry modules / tables: kernels that freeze "
+                              "table data there write caches that src_cache_list does not cover")
     info["other_cached_modules"] = others
     return info
 
